@@ -64,13 +64,17 @@ func (vm *VM) SetRecover(v bool) *VM {
 	return vm
 }
 
-// SetBytecode enables to set a new Bytecode.
+// SetBytecode enables to set a new Bytecode. It also clears the stack and removes modules cache.
 func (vm *VM) SetBytecode(bc *Bytecode) *VM {
 	vm.mu.Lock()
 	defer vm.mu.Unlock()
 	vm.bytecode = bc
 	vm.constants = bc.Constants
 	vm.modulesCache = nil
+	// objects left on the stack by earlier runs must not be readable by the new Bytecode
+	for i := range vm.stack {
+		vm.stack[i] = nil
+	}
 	return vm
 }
 
